@@ -26,7 +26,7 @@ class Prop(common.PropertyCheck):
         for _ in range(self.budget(500, 6000)):
             yield {'res': rng.choice([256, 1024, 1000, 4096, 65536, 262144, 777]), 'units': rng.choice(['raw', 'rfi', 'mef']),
                    'scale': rng.choice(['linear', 'log', 'logicle']), 'n': rng.choice([None, 1, 2, 17, 256, 'res']),
-                   'chform': rng.choice(['name', 'pos', 'list', 'all', 'list_mixed']), 'over': rng.choice([None, None, 'T', 'M', 'W', 'W0']),
+                   'chform': rng.choice(['name', 'pos', 'list', 'all', 'list_mixed']), 'over': rng.choice([None, None, 'T', 'M', 'W', 'W0', 'Wbig', 'Tsmall', 'TM']),
                    'dt': rng.choice(['I', 'I', 'F']), 'tinyneg': rng.random() < 0.4, 'seed': rng.randrange(1 << 30)}
         yield {'res': 1024, 'units': 'raw', 'scale': 'cubic', 'n': None, 'chform': 'name', 'over': None, 'seed': 1}
         # unsupported entries inside a per-channel scale list
@@ -70,7 +70,8 @@ class Prop(common.PropertyCheck):
         scalar = chf in ('name', 'pos')
         kw = {}
         if case['over'] and scale == 'logicle':
-            kw = {'T': {'T': 5e4}, 'M': {'M': 5.0}, 'W': {'W': 0.8}, 'W0': {'W': 0 if case['seed'] % 2 else 0.0}}[case['over']]
+            kw = {'T': {'T': 5e4}, 'M': {'M': 5.0}, 'W': {'W': 0.8}, 'W0': {'W': 0 if case['seed'] % 2 else 0.0}, 'Wbig': {'W': 3.0},
+                  'Tsmall': {'T': 20.0}, 'TM': {'T': 3e5, 'M': 6.0}}[case['over']]
         nb = n
         if n == 'res':
             nb = None
@@ -105,6 +106,14 @@ class Prop(common.PropertyCheck):
             if out['scales'][i] == 'logicle':
                 t = FlowCal.plot._LogicleTransform(data=self.sample(case), channel=c, **kw)
                 tms.append([bits(t.T), bits(t.M), bits(t.W), bits(t._p)])
+                # the documented rules, computed here from the data: T = upper range limit, M = max(4.5, 4.5 log10(T)/log10(262144)),
+                # W = (M - log10(T/|most negative event|))/2 floored at 0 -- each unless given explicitly
+                col = np.asarray(f[:, c], dtype=float)
+                Tw = kw.get('T', float(f.range(c)[1]))
+                Mw = kw.get('M', max(4.5, 4.5 * math.log10(Tw) / math.log10(262144)))
+                mn = float(col.min()) if col.size else 0.0
+                Ww = kw.get('W', max(0.0, (Mw - math.log10(Tw / abs(mn))) / 2) if mn < 0 else 0.0)
+                out.setdefault('tmw_doc', {})[str(i)] = [Tw, Mw, Ww, float(t.T), float(t.M), float(t.W)]
                 ev = np.asarray(edges[i], dtype=float)
                 if len(ev) <= 3000 and len(ev) >= 3:
                     u = np.asarray(t.inverted().transform_non_affine(ev), dtype=float)      # data -> display (interpolated inverse)
@@ -135,6 +144,10 @@ class Prop(common.PropertyCheck):
             return None if impl.get('err') == 'ValueError' else 'unknown scale not refused: %s' % impl.get('err', 'accepted')
         if 'err' in impl:
             return 'hist_bins raised %s for %s' % (impl['err'], case)
+        for i, v in (impl.get('tmw_doc') or {}).items():
+            for nm, w, g in zip('TMW', v[:3], v[3:]):
+                if abs(g - w) > 2e-6 * max(1.0, abs(w)):
+                    return 'logicle parameter %s used for the bins of channel %s is %r, the documented rule gives %r (overrides %s)' % (nm, impl['cols'][int(i)], g, w, case['over'])
         if impl.get('history_ok') not in (None, True):
             return 'a second hist_bins query on the same object with other %s values differs from the same query on a fresh object (%s)' % (case['over'], impl['history_ok'])
         if impl['range_after'] != impl['ranges']:
@@ -161,7 +174,7 @@ class Prop(common.PropertyCheck):
                 if not (e[0] < lo_eff and e[-1] > hi):
                     return 'log edges [%r, %r] do not cover [%r, %r]' % (e[0], e[-1], lo_eff, hi)
             else:
-                if not (e[0] <= min(lo, 0) and (case['over'] == 'T' or e[-1] >= hi * (1 - 1e-9))):
+                if not (e[0] <= min(lo, 0) and (case['over'] in ('T', 'Tsmall', 'TM') or e[-1] >= hi * (1 - 1e-9))):
                     return 'logicle edges [%r, %r] do not cover the range %s' % (e[0], e[-1], [lo, hi])
             # value-centred bins with the default bin count
             if impl['nb'][i] is None and res <= 4096:
